@@ -1,6 +1,6 @@
 (* Property C02: transpose, adjoint and left-multiplication agree with the represented matrix. *)
 From Coq Require Import List Arith Bool ZArith.
-From Core Require Import Base Kron Op OpProofs MatVec Algebra AlgebraProofs AlgebraMore ZIInst.
+From Core Require Import Base Kron Op OpProofs MatVec Algebra AlgebraProofs AlgebraMore ZIInst C05_Annot C05_Sem C05_Sound C05_Link.
 Import ListNotations.
 
 (* x @ A / X @ A: the backward product (explicit _rmatmat where the code has one, otherwise the linear transpose of
@@ -31,6 +31,15 @@ Theorem C02_adjoint_sound : forall (R : Type) (RR : Ring R) (CR : CRing R) (sa :
   feq (snd (shape e)) (fst (shape e)) (den (adjoint sa e)) (fun i j => conj (den e j i)).
 Proof. intros R RR CR. exact (@adjoint_sound R RR CR). Qed.
 Print Assumptions C02_adjoint_sound.
+
+(* the hypotheses of the two shortcuts follow from true declarations (property C05): whenever the repaired inference
+   reports A.isa(SelfAdjoint) the matrix is Hermitian, and symmetric when the payload is real *)
+Theorem C02_shortcut_hypotheses : forall (R : Type) (RR : Ring R) (CR : CRing R) (nonneg : R -> Prop),
+  nonneg r1 -> (forall a b, nonneg a -> nonneg b -> nonneg (rmul a b)) -> (forall a, nonneg a -> conj a = a) ->
+  forall x : aop (R:=R), wf (erase x) = true -> truthful nonneg x -> isa (infer repaired x) SA = true ->
+  hermitian (erase x) /\ ((forall i j, conj (den (erase x) i j) = den (erase x) i j) -> symmetric (erase x)).
+Proof. intros R RR CR nonneg H1 H2 H3 x W T H. exact (Logic.conj (isa_selfadjoint_hermitian nonneg H1 H2 H3 x W T H) (isa_selfadjoint_symmetric nonneg H1 H2 H3 x W T H)). Qed.
+Print Assumptions C02_shortcut_hypotheses.
 
 (* towers of .T / .H of ANY depth (the property asks for depth 3) *)
 Theorem C02_tower_sound : forall (R : Type) (RR : Ring R) (CR : CRing R) (saf : op (R:=R) -> bool) (w : list tw),
